@@ -76,6 +76,41 @@ def string_templates(fnode):
     return out
 
 
+def with_helpers(prog, fi):
+    """For rules that read a function's syntax: the function together with
+    the helpers it was split into - methods of its class called on `self` and
+    functions of its module called by name that did not exist when the rules
+    were written (a wrapper/core split, an extracted builder) - as ONE
+    synthetic FunctionDef (helper bodies first)."""
+    known = prog.known_funcs() or frozenset()
+    seen, order = {fi.qualname}, []
+
+    def visit(f):
+        for n in ast.walk(f.node):
+            if not isinstance(n, ast.Call):
+                continue
+            g = None
+            if isinstance(n.func, ast.Attribute) and \
+                    isinstance(n.func.value, ast.Name) and \
+                    n.func.value.id == 'self' and f.cls is not None:
+                g = prog.lookup_method(f.cls, n.func.attr)
+            elif isinstance(n.func, ast.Name):
+                g = f.module.funcs.get(n.func.id)
+            if g is not None and g.qualname not in known and \
+                    g.qualname not in seen and g.parent is None:
+                seen.add(g.qualname)
+                visit(g)
+                order.append(g)
+    visit(fi)
+    if not order:
+        return fi.node
+    body = [st for g in order for st in g.node.body] + list(fi.node.body)
+    merged = ast.FunctionDef(name=fi.node.name, args=fi.node.args, body=body,
+                             decorator_list=[], lineno=fi.node.lineno,
+                             col_offset=0)
+    return ast.fix_missing_locations(merged)
+
+
 def answers_not_cached(ctx):
     """The text an interface contributes is cached in its `_xml` slot and
     dropped by every add* / del* (D5).  A SECOND cache further up - the call
@@ -136,21 +171,15 @@ def run(ctx):
     prog = ctx.prog
     gx = prog.func('interface.DBusInterface._getXml')
     gi = prog.func('introspection.generateIntrospectionXML')
+    gx_node = with_helpers(prog, gx)
+    gi_node = with_helpers(prog, gi)
     # writer vocabulary, with the element that encloses it
     writer = {}       # element -> list of (attrs dict, enclosing element)
     order = []
-    for fi in (gx, gi):
-        enclosing = []
-        for text, loops in sorted(string_templates(fi.node),
-                                  key=lambda x: 0):
-            pass
     # linear scan in source order to recover nesting
-    def scan(fi):
-        srcs = []
-        for n in ast.walk(fi.node):
-            pass
+    def scan(fnode):
         stack = []
-        for text, loops in templates_in_order(fi.node):
+        for text, loops in templates_in_order(fnode):
             for m in re.finditer(r'<(/?)([A-Za-z]+)((?:\s+[A-Za-z_.]+="[^"]*")*)\s*(/?)>', text):
                 close, name, attrs, selfclose = m.groups()
                 if close:
@@ -162,8 +191,8 @@ def run(ctx):
                     (ad, stack[-1] if stack else None, loops))
                 if not selfclose:
                     stack.append(name)
-    scan(gx)
-    scan(gi)
+    scan(gx_node)
+    scan(gi_node)
     mod = prog.module('introspection')
     intro = mod.assigns.get('_intro')
     if intro and isinstance(intro[0], ast.Constant):
@@ -337,12 +366,11 @@ def run(ctx):
     # the writer writes Property.access
     acc_ok = any('access' in ad and enc != 'const'
                  for ad, enc, _ in writer.get('property', []))
-    src = ast.unparse(gx.node)
     ctx.ob('C15.D2', gx.qualname, 'writes-access-mode',
            acc_ok and any(isinstance(n_, ast.Attribute) and
                           n_.attr == 'access' and
                           isinstance(n_.ctx, ast.Load)
-                          for n_ in ast.walk(gx.node)),
+                          for n_ in ast.walk(gx_node)),
            'the property element must carry the access mode of the '
            'Property', nontrivial=False)
     # D4 reuse polarity ---------------------------------------------------------------
@@ -533,15 +561,16 @@ def cache_invalidation(ctx):
     prog = ctx.prog
     cls = prog.cls('interface.DBusInterface')
     gx = prog.lookup_method(cls, '_getXml')
+    gx_node = with_helpers(prog, gx)
     selft = ('param', 'self')
-    cache = {t.attr for n in ast.walk(gx.node) if isinstance(n, ast.Assign)
+    cache = {t.attr for n in ast.walk(gx_node) if isinstance(n, ast.Assign)
              for t in n.targets if isinstance(t, ast.Attribute) and
              isinstance(t.value, ast.Name) and t.value.id == 'self'}
     if len(cache) != 1:
         raise AnalysisError('_getXml: the cache attribute was not '
                             'recognised (%s)' % sorted(cache))
     cattr = next(iter(cache))
-    sources = {n.attr for n in ast.walk(gx.node)
+    sources = {n.attr for n in ast.walk(gx_node)
                if isinstance(n, ast.Attribute) and
                isinstance(n.ctx, ast.Load) and
                isinstance(n.value, ast.Name) and n.value.id == 'self'} - \
@@ -612,6 +641,14 @@ def templates_in_order(fnode):
                     walk(ch, loops + [ast.unparse(n.iter)])
                 else:
                     walk(ch, loops)
+            return
+        if isinstance(n, (ast.ListComp, ast.GeneratorExp, ast.SetComp)):
+            # [<template> for x in <iter>]: the element is written once per
+            # element of the iterable, like the body of a for statement
+            inner = loops + [ast.unparse(g.iter) for g in n.generators]
+            walk(n.elt, inner)
+            for g in n.generators:
+                walk(g.iter, loops)
             return
         for ch in ast.iter_child_nodes(n):
             walk(ch, loops)
